@@ -136,6 +136,7 @@ def check(seed, n):
     violations = []
     evals = 0
     feats = {}
+    seen = set()
     d = scratch_dir()
     try:
         for k in range(n):
@@ -147,6 +148,7 @@ def check(seed, n):
             if problem == "skip":
                 continue
             evals += 1
+            seen.add((text, big))
             case = {"text": text, "big_stack": big}
             if problem:
                 v = {"property": "C06", "stream": "asmrun", "sig": "asm-vs-run:" + problem.split(":")[0], "case": case,
@@ -159,4 +161,4 @@ def check(seed, n):
                 violations.append({"property": "C06", "stream": "asmrun", "sig": "strip", "case": case, "what": sp})
     finally:
         shutil.rmtree(d, ignore_errors=True)
-    return {"evaluations": evals, "violations": violations, "disagreements": [], "distribution": feats}
+    return {"evaluations": evals, "violations": violations, "disagreements": [], "distribution": feats, "distinct": len(seen)}
